@@ -150,7 +150,7 @@ type genOpts struct {
 	Force []string
 }
 
-var defaultGen = genOpts{MaxDepth: 4, Budget: 90, P0: 22, Contained: true}
+var defaultGen = genOpts{MaxDepth: 4, Budget: 110, P0: 28, Contained: true}
 var smallGen = genOpts{MaxDepth: 2, Budget: 18, P0: 25, Contained: false}
 
 type resGen struct {
@@ -848,10 +848,42 @@ func renderSteps(rootName string, steps []step) string {
 		if i > 0 || rootName != "" {
 			sb.WriteByte('.')
 		}
-		sb.WriteString(st.Name)
+		sb.WriteString(fpIdent(st.Name))
 		if st.Idx >= 0 {
 			fmt.Fprintf(&sb, "[%d]", st.Idx)
 		}
 	}
 	return sb.String()
+}
+
+// c02IndexedSteps renders the path to n with an indexer on every repeated step
+// selected by mask (bit i = step i).  The index is the position in the flattened
+// collection of that step, which equals the list index when all earlier steps are
+// indexed; for the mixed spelling the model re-evaluates the result anyway.
+func c02IndexedSteps(n *Node, mask int) []step {
+	var chain []*Node
+	for x := n; x.Parent != nil; x = x.Parent {
+		chain = append([]*Node{x}, chain...)
+	}
+	steps := make([]step, len(chain))
+	for i, x := range chain {
+		steps[i] = step{x.Name, -1}
+		if x.IsList && (mask>>(uint(i)%16))&1 == 1 {
+			steps[i].Idx = x.Index
+		}
+	}
+	return steps
+}
+
+
+var fpKeywords = map[string]bool{"div": true, "mod": true, "and": true, "or": true, "xor": true, "implies": true, "true": true, "false": true,
+	"year": true, "years": true, "month": true, "months": true, "week": true, "weeks": true, "day": true, "days": true, "hour": true, "hours": true,
+	"minute": true, "minutes": true, "second": true, "seconds": true, "millisecond": true, "milliseconds": true}
+
+// fpIdent spells an element name as a FHIRPath identifier (delimited when it is a keyword).
+func fpIdent(name string) string {
+	if fpKeywords[name] {
+		return "`" + name + "`"
+	}
+	return name
 }
